@@ -1026,7 +1026,11 @@ class Watcher(object):
             if sequential:
                 active_processes = self.get_active_processes()
                 for process in active_processes:
-                    yield self.kill_process(process)
+                    killed = yield self.kill_process(process)
+                    if not killed:
+                        # somebody else is already terminating this process
+                        # (or it is gone): nothing to wait for here
+                        continue
                     self.reap_process(process.pid)
                     self.spawn_process()
                     yield tornado_sleep(self.warmup_delay)
